@@ -5,6 +5,8 @@ package sim
 
 import (
 	"fmt"
+	"os"
+	"path/filepath"
 	"reflect"
 	"sort"
 	"strings"
@@ -193,6 +195,15 @@ func judgeNumeric(c *Ctx, sc *Scenario, sp *numericSpec) *Violation {
 		if !declared {
 			r := *sc
 			r.Plan = Plan{RealPeers: true}
+			// real git would follow a legacy info/grafts file; git-sizer
+			// promises not to (C13), so one that adds a parent outside the
+			// closure must change nothing
+			graftFile := filepath.Join(site.GitDir, "info", "grafts")
+			if line := additiveGraft(w, ex); line != "" && w.Extras.Grafts == "" {
+				os.WriteFile(graftFile, []byte(line), 0o644)
+				defer os.Remove(graftFile)
+				c.Stats.Probe("real-peers-run-with-additive-graft")
+			}
 			rr := RunA(c.T, c.H, &r, site)
 			c.Stats.AddResult(rr)
 			if rr.Panic != "" || rr.Failed {
@@ -336,4 +347,31 @@ var componentsA = map[string]string{
 	"clock":                                                                                      "testing/synctest fake clock",
 	"pipes":                                                                                      "in-memory, capacity / chunking / short reads from the plan",
 	"goroutine scheduling":                                                                       "Go runtime at GOMAXPROCS=1; peer event order decided by the plan's fake-time delays",
+}
+
+// additiveGraft returns a graft line that keeps the real parents of one
+// reachable commit and adds a commit the scan must not reach, or "".
+func additiveGraft(w *World, ex *Expected) string {
+	var inside, outside []*Object
+	for _, o := range w.Objects {
+		if o.Kind != KCommit || !o.Stored || o.Missing {
+			continue
+		}
+		if _, ok := ex.Closure[o.ID]; ok {
+			inside = append(inside, o)
+		} else {
+			outside = append(outside, o)
+		}
+	}
+	if len(inside) == 0 || len(outside) == 0 {
+		return ""
+	}
+	sort.Slice(inside, func(i, j int) bool { return inside[i].ID < inside[j].ID })
+	sort.Slice(outside, func(i, j int) bool { return outside[i].ID < outside[j].ID })
+	c := inside[0]
+	line := c.ID
+	for _, p := range DecodeCommit(c.Body).Parents {
+		line += " " + p
+	}
+	return line + " " + outside[0].ID + "\n"
 }
